@@ -201,8 +201,22 @@ def mk_rxn(rx):
     from chempy import Reaction, Equilibrium
     cls = Equilibrium if rx[7] else Reaction
     param = rx[4] if rx[6] is None else (rx[4], rx[6])
-    return cls(OrderedDict(rx[0]), OrderedDict(rx[1]), param, OrderedDict(rx[2]), OrderedDict(rx[3]),
+    return cls(stoich_arg(rx[0]), stoich_arg(rx[1]), param, stoich_arg(rx[2]), stoich_arg(rx[3]),
                name=rx[5], checks=())
+
+
+def stoich_arg(part):
+    """how a stoichiometry dict is handed to Reaction: as an OrderedDict (order kept), or — when the keys are strictly
+    ascending, where `_init_stoich` must yield the same OrderedDict — as a plain dict (sorted by the constructor) or, if all
+    coefficients are 1, as a set ({k: 1 for k in set}). The choice is a deterministic function of the data."""
+    keys = [k for k, _ in part]
+    if part and keys == sorted(set(keys)) and len(set(keys)) == len(keys):
+        h = sum(len(k) for k in keys) + len(keys)
+        if all(v == 1 for _, v in part) and h % 3 == 0:
+            return set(keys)
+        if h % 3 == 1:
+            return dict(part)
+    return OrderedDict(part)
 
 
 def mk_subst(s):
@@ -227,6 +241,11 @@ def show_rxn(r):
 def _equilibrium_class():
     from chempy import Equilibrium
     return Equilibrium
+
+
+def show_rxn_struct(r):
+    return show_rxn(type('R', (), dict(reac=r.reac, prod=r.prod, inact_reac=r.inact_reac, inact_prod=r.inact_prod, param=None,
+                                       name=None))())[:4]
 
 
 def show_subst(s):
@@ -516,10 +535,16 @@ class C15(Property):
         'reactions preserve the element totals is C05, not re-proved here',
         'non-default skip_keys of upper_conc_bounds, zero stoichiometric coefficients, a bare string as substances: outside the quantifier; the '
         'model mirrors the code and witness theorems document the behaviour',
-        'constructor with the DEFAULT checks (a hash-ordered Python set, incl. check_balance) and missing_substances_from_keys: not modelled; '
-        'the correspondence passes explicit check tuples',
+        'constructor with the DEFAULT checks: modelled as "some requested check raised" (the set is hash-ordered, so WHICH one is not defined); '
+        'check_balance is outside the model and always in dont_check. missing_substances_from_keys appends in set (hash) order: modelled and '
+        'generated only where the order cannot be observed (sorting applies afterwards, or at most one key is missing)',
+        'Equilibrium.as_reactions(kf=.. | kb=.. | units=..): oracle only (structure of the forward/backward pair, names, kf = kb*K*c0**(nb-nf) '
+        'numerically); the model and as_reactions_spec cover the argument-less call that categorize_substances uses; rate arithmetic is C11',
+        'as_per_substance_array(..., unit=u) (to_unitless plumbing): oracle only (values in substance order in that unit); units are C09/C10',
+        'Reaction == non-Reaction object (NotImplemented -> False): oracle only',
+        'negative stoichiometric coefficients: only the refusal of categorize_substances is modelled (categorizeSigned, plain reactions, '
+        'checks=()); negative coefficients whose totals are all non-negative, or together with equilibria / requested checks, are not generated',
         'decompose_yields (anchor chempy/util/stoich.py): not modelled (least squares is external)',
-        'Equilibrium members: as_reactions() is modelled only for the argument-less call used by categorize_substances (pair parameter, no units)',
     )
     rule = ('random reaction graphs with 0..12 substances / 0..12 reactions drawn from 1..4 planted clusters (plus cross-cluster '
             'reactions, isolated species, catalysts, inactive reactants/products, zero coefficients, empty reactions, duplicated and '
@@ -564,7 +589,8 @@ class C15(Property):
         cases = []
         kinds = (['split'] * 24 + ['categorize'] * 12 + ['identify_equilibria'] * 8 + ['participation'] * 5 + ['effect'] * 5
                  + ['subset'] * 8 + ['add'] * 4 + ['add_rxns'] * 1 + ['iadd'] * 3 + ['iadd_rxns'] * 1 + ['eq'] * 3 + ['concatenate'] * 3
-                 + ['make'] * 10 + ['as_reactions'] * 4 + ['array_from_dict'] * 3 + ['array_from_list'] * 2 + ['dict_from_array'] * 2
+                 + ['make'] * 12 + ['as_reactions'] * 4 + ['check'] * 3 + ['any_effect'] * 2 + ['rxn_eq'] * 3
+                 + ['categorize_signed'] * 3 + ['array_units'] * 1 + ['as_reactions_args'] * 2 + ['array_from_dict'] * 3 + ['array_from_list'] * 2 + ['dict_from_array'] * 2
                  + ['substance_index'] * 2 + ['varied'] * 2 + ['upper_bounds'] * 10 + ['history'] * 7)
         for _ in range(n):
             cases.append(self.gen_case(rng, rng.choice(kinds)))
@@ -591,6 +617,67 @@ class C15(Property):
         if kind == 'categorize':
             return {'op': 'categorize', 'sys': gen_sys(rng, eq_p=rng.choice([0, 0.1, 0.3, 0.6])),
                     'checks': gen_checks(rng) if rng.random() < 0.3 else []}
+        if kind == 'check':
+            spec = gen_sys(rng, unknown_p=0.2, dup_p=0.15, named_p=0.5)
+            return {'op': 'check', 'sys': spec, 'check': rng.choice(CHECKS)}
+        if kind == 'any_effect':
+            pool = rng.sample(POOL, rng.randint(1, 4))
+            rx = gen_rxn(rng, pool)
+            if rng.random() < 0.4:
+                rx[1], rx[3] = [list(p) for p in rx[0]], [list(p) for p in rx[2]]
+                if rx[1] and rng.random() < 0.5:                   # same totals, differently split between active and inactive
+                    k, v = rx[1][0]
+                    if v >= 2 and all(k != kk for kk, _ in rx[3]):
+                        rx[1][0] = [k, v - 1]
+                        rx[3] = rx[3] + [[k, 1]]
+            return {'op': 'any_effect', 'rxn': rx}
+        if kind == 'rxn_eq':
+            pool = rng.sample(POOL, rng.randint(1, 4))
+            a = gen_equilibrium(rng, pool) if rng.random() < 0.2 else gen_rxn(rng, pool)
+            r = rng.random()
+            if r < 0.2:
+                return {'op': 'rxn_eq', 'a': a, 'b': a, 'other': 'same'}
+            if r < 0.35:
+                return {'op': 'rxn_eq', 'a': a, 'b': a, 'other': 'nonrxn:' + rng.choice(sorted(BAD_ITEMS))}
+            b = json.loads(json.dumps(a))
+            m = rng.random()
+            if m < 0.2:
+                b[5] = 'other-name'
+            elif m < 0.35:
+                b[7] = not b[7]                                    # the class is not compared
+            elif m < 0.5:
+                b[4] = 8
+            elif m < 0.6 and len(b[0]) > 1:
+                b[0].reverse()
+            elif m < 0.7 and b[6] is not None:
+                b[6] = b[6] + 1
+            elif m < 0.85:
+                b = gen_rxn(rng, pool)
+            return {'op': 'rxn_eq', 'a': a, 'b': b, 'other': 'rxn'}
+        if kind == 'categorize_signed':
+            spec = gen_sys(rng, 8, 6, unknown_p=0, dup_p=0, eq_p=0, named_p=0)
+            keys = [k for k, _ in spec['subs']]
+            if spec['rxns'] and keys and rng.random() < 0.8:
+                rx = rng.choice(spec['rxns'])
+                side = rng.choice([0, 1, 2, 3])
+                have = [k for k, _ in rx[side]]
+                free = [k for k in keys if k not in have and all(k != kk for kk, _ in rx[(side + 2) % 4])]
+                if free:
+                    # a negative coefficient whose total over (active + inactive) of that side is negative too
+                    rx[side].append([rng.choice(free), -rng.randint(1, 3)])
+            return {'op': 'categorize_signed', 'rxns': spec['rxns'], 'subs': spec['subs'], 'checks': []}
+        if kind == 'as_reactions_args':
+            pool = rng.sample(POOL, rng.randint(2, 5))
+            rx = gen_equilibrium(rng, pool, 0.5)
+            rx[4], rx[6] = rng.randint(1, 9), None               # a scalar equilibrium constant K
+            if not any(s_net(rx, k) != 0 for k in s_keys(rx)):
+                rx[1] = rx[1] + [[pool[0], 1]] if all(k != pool[0] for k, _ in rx[1]) else rx[1]
+            return {'oracle_only': 'as_reactions_args', 'rxn': rx, 'mode': rng.choice(['kf', 'kb', 'both', 'kf_units', 'kf_units_missing']),
+                    'k': rng.randint(1, 12), 'new_name': rng.choice([None, 'back'])}
+        if kind == 'array_units':
+            spec = gen_sys(rng, max_r=2, comps=False)
+            return {'oracle_only': 'array_units', 'sys': spec, 'vals': [rng.randint(0, 40) for _ in spec['subs']],
+                    'as_dict': rng.random() < 0.5}
         if kind == 'as_reactions':
             pool = rng.sample(POOL, rng.randint(1, 5))
             rx = gen_equilibrium(rng, pool, 0.4)
@@ -600,6 +687,8 @@ class C15(Property):
         if kind in ('participation', 'effect', 'substance_index'):
             spec = gen_sys(rng)
             keys = [k for k, _ in spec['subs']] + ['X?', 'nope']
+            if kind == 'substance_index' and rng.random() < 0.25:
+                return {'op': kind, 'sys': spec, 'key': rng.randint(-2, 14)}      # an int is returned as it is
             return {'op': kind, 'sys': spec, 'key': rng.choice(keys)}
         if kind == 'subset':
             spec = gen_sys(rng)
@@ -626,7 +715,11 @@ class C15(Property):
                 b = a
             else:
                 b = gen_sys(rng, 7, 6, pool=pool)
-            return {'op': kind, 'a': a, 'b': b}
+            c = {'op': kind, 'a': a, 'b': b}
+            if kind == 'eq' and rng.random() < 0.15:
+                c['b'] = a
+                c['same_object'] = True                            # `self is other`
+            return c
         if kind in ('add_rxns', 'iadd_rxns'):
             a = gen_sys(rng, 7, 6)
             pool = [k for k, _ in a['subs']] + ['X?']
@@ -681,9 +774,33 @@ class C15(Property):
                 arg = ['substs', l]
             else:
                 arg = ['odict', spec['subs']]
-            return {'op': 'make', 'rxns': spec['rxns'], 'substances': arg, 'checks': gen_checks(rng), 'container': gen_container(rng),
-                    # sort_substances=False with a set / None would expose the hash-randomised set order
-                    'sort': rng.choice([None, None, None, True, False] if arg is not None and arg[0] != 'set' else [None, None, True])}
+            if arg is not None and arg[0] == 'odict' and rng.random() < 0.5:
+                arg = ['dict', spec['subs']]                       # a plain dict key -> Substance: sorted by default
+            unordered = arg is None or arg[0] in ('set',)
+            c = {'op': 'make', 'rxns': spec['rxns'], 'substances': arg, 'checks': gen_checks(rng), 'container': gen_container(rng),
+                 # sort_substances=False with a set / None would expose the hash-randomised set order
+                 'sort': rng.choice([None, None, None, True, False] if not unordered else [None, None, True]),
+                 'dont_check': None, 'missing': False}
+            r = rng.random()
+            if r < 0.08:                                           # both given -> refused
+                c['dont_check'] = ['balance'] + rng.sample(CHECKS, rng.randint(0, 2))
+            elif r < 0.25:                                         # the default checks minus dont_check (balance is outside the model)
+                c['checks'] = None
+                c['dont_check'] = ['balance'] + rng.sample(CHECKS, rng.randint(0, 3))
+            if rng.random() < 0.2 and arg is not None and arg[0] in ('names', 'substs', 'odict', 'dict', 'set'):
+                # missing_substances_from_keys: drop some substances the reactions need. The added keys come in set (hash) order,
+                # so either sorting applies afterwards or at most one key is missing
+                used = [k for k in keys if any(k in s_keys(rx) for rx in spec['rxns'])]
+                will_sort = c['sort'] if c['sort'] is not None else arg[0] in ('set', 'dict')
+                drop = rng.sample(used, min(len(used), rng.randint(1, 3) if will_sort else 1)) if used else []
+                unknown = [k for rx in spec['rxns'] for k in s_keys(rx) if k not in keys]
+                if will_sort or len(set(unknown)) + len(drop) <= 1:
+                    if arg[0] in ('names', 'set'):
+                        arg[1] = [k for k in arg[1] if k not in drop]
+                    else:
+                        arg[1] = [e for e in arg[1] if e[0] not in drop]
+                    c['missing'] = True
+            return c
         if kind in ('array_from_dict', 'array_from_list', 'dict_from_array', 'varied'):
             spec = gen_sys(rng, max_r=3)
             keys = [k for k, _ in spec['subs']]
@@ -758,6 +875,8 @@ class C15(Property):
             return None
         if c['op'] == 'array_from_dict' and c.get('dict_kind') == 'defaultdict':
             return dict(c, default=-77)
+        if c['op'] == 'rxn_eq' and c.get('other', '').startswith('nonrxn'):
+            return None                       # comparison with a non-Reaction object: oracle only
         return c
 
     # ---------------------------------------------------------------- real code
@@ -779,13 +898,38 @@ class C15(Property):
                     arg = a[1]
                 elif a[0] == 'substs':
                     arg = [mk_subst(s) for s in a[1]]
+                elif a[0] == 'dict':
+                    arg = dict((k, mk_subst(s)) for k, s in a[1])
                 else:
                     arg = OrderedDict((k, mk_subst(s)) for k, s in a[1])
                 try:
-                    rs = ReactionSystem(rxns, arg, checks=tuple(c['checks']), sort_substances=c['sort'])
+                    rs = ReactionSystem(rxns, arg, checks=None if c['checks'] is None else tuple(c['checks']),
+                                        dont_check=None if c.get('dont_check') is None else set(c['dont_check']),
+                                        sort_substances=c['sort'], missing_substances_from_keys=bool(c.get('missing')))
                 except ValueError as e:
-                    return check_err(e)
+                    if str(e).startswith('Cannot specify both checks and dont_check'):
+                        return 'ValueError:both'
+                    r = check_err(e)
+                    # default checks: a hash-ordered set decides WHICH failing check raises
+                    return 'ValueError:some-check' if c['checks'] is None and r.split(':')[1] in CHECKS else r
                 return dumps(show_sys(rs))
+            if op == 'check':
+                rs, _ = mk_sys(c['sys'])
+                return 'true' if getattr(rs, 'check_' + c['check'])() else 'false'
+            if op == 'any_effect':
+                return 'true' if mk_rxn(c['rxn']).check_any_effect() else 'false'
+            if op == 'rxn_eq':
+                a = mk_rxn(c['a'])
+                b = a if c['other'] == 'same' else mk_rxn(c['b'])
+                return 'true' if a == b else 'false'
+            if op == 'categorize_signed':
+                rs, _ = mk_sys({'rxns': c['rxns'], 'subs': c['subs']})
+                try:
+                    cat = rs.categorize_substances(checks=tuple(c['checks']))
+                except ValueError as e:
+                    return 'ValueError:negative' if str(e).startswith('Expected positive stoichiometric') else check_err(e)
+                keys = list(rs.substances)
+                return dumps([[k for k in keys if k in cat[nm]] for nm in ('accumulated', 'depleted', 'unaffected', 'nonparticipating')])
             if op == 'split':
                 rs, rxns = mk_sys(c['sys'])
                 ids = {id(r): i for i, r in enumerate(rxns)}
@@ -834,6 +978,8 @@ class C15(Property):
                     a += b
                     assert a is a0
                     return dumps(show_sys(a))
+                if c.get('same_object'):
+                    b = a
                 return 'true' if a == b else 'false'
             if op in ('add_rxns', 'iadd_rxns'):
                 a, _ = mk_sys(c['a'])
@@ -939,6 +1085,10 @@ class C15(Property):
         from chempy import ReactionSystem
         if c.get('oracle_only') == 'concat_shared':
             return self._oracle_concat_shared(c)
+        if c.get('oracle_only') == 'array_units':
+            return self._oracle_array_units(c)
+        if c.get('oracle_only') == 'as_reactions_args':
+            return self._oracle_as_reactions_args(c)
         op = c['op']
         if c.get('container') not in (None, 'list'):
             # the container type of an operand / argument must not matter: same result (or same refusal) as for a list
@@ -985,6 +1135,49 @@ class C15(Property):
             return None
         if op == 'as_reactions':
             return self._oracle_as_reactions(c)
+        if op == 'check':
+            spec = c['sys']
+            want = c['check'] not in failing_checks(spec['rxns'], [k for k, _ in spec['subs']])
+            rs, _ = mk_sys(spec)
+            got = getattr(rs, 'check_' + c['check'])()
+            if got is not want:
+                return 'check_%s() = %r, by its definition %r' % (c['check'], got, want)
+            try:
+                getattr(rs, 'check_' + c['check'])(throw=True)
+            except ValueError:
+                return None if not want else 'check_%s(throw=True) raised although the check holds' % c['check']
+            return None if want else 'check_%s(throw=True) did not raise' % c['check']
+        if op == 'any_effect':
+            rx = c['rxn']
+            want = any(s_net(rx, k) != 0 for k in s_keys(rx))
+            got = mk_rxn(rx).check_any_effect()
+            return None if got is want else 'check_any_effect() = %r, net stoichiometries %s' % (got, [s_net(rx, k) for k in s_keys(rx)])
+        if op == 'rxn_eq':
+            a = mk_rxn(c['a'])
+            if c['other'] == 'same':
+                return None if (a == a) is True and (a != a) is False else 'a reaction is not equal to itself'
+            if c['other'].startswith('nonrxn'):
+                x = BAD_ITEMS[c['other'].split(':')[1]]
+                if (a == x) is not False or (a != x) is not True or (x == a) is not False:
+                    return 'a Reaction compares equal to the non-Reaction object %r' % (x,)
+                return None
+            b = mk_rxn(c['b'])
+            want = s_rxn_eq(c['a'], c['b'])
+            if (a == b) is not want or (b == a) is not want or (a != b) is want:
+                return 'Reaction == gives %r, by definition (four ordered dicts and the parameter) %r' % (a == b, want)
+            return None
+        if op == 'categorize_signed':
+            keys = [k for k, _ in c['subs']]
+            neg_tot = any(s_all_reac(rx, k) < 0 or s_all_prod(rx, k) < 0 for rx in c['rxns'] for k in keys)
+            neg_any = any(v < 0 for rx in c['rxns'] for part in rx[:4] for _, v in part)
+            if not neg_any:
+                return self.oracle({'op': 'categorize', 'sys': {'rxns': c['rxns'], 'subs': c['subs']}, 'checks': c['checks']})
+            rs, _ = mk_sys({'rxns': c['rxns'], 'subs': c['subs']})
+            try:
+                rs.categorize_substances(checks=())
+            except ValueError as e:
+                return None if neg_tot else 'categorize_substances refused (%s) although no total coefficient is negative' % e
+            return 'categorize_substances accepted a negative total stoichiometric coefficient' if neg_tot else None
         if op == 'identify_equilibria':
             spec = c['sys']
             keys = [k for k, _ in spec['subs']]
@@ -1051,7 +1244,7 @@ class C15(Property):
         if op == 'eq':
             a, b = c['a'], c['b']
             A, _ = mk_sys(a)
-            B = mk_sys(b)[0]
+            B = A if c.get('same_object') else mk_sys(b)[0]
             want = (len(a['rxns']) == len(b['rxns']) and all(s_rxn_eq(x, y) for x, y in zip(a['rxns'], b['rxns']))
                     and a['subs'] == b['subs'])
             return None if (A == B) == want else '== is %s, definition says %s' % (A == B, want)
@@ -1065,6 +1258,74 @@ class C15(Property):
             return self._oracle_bounds(c)
         if op == 'history':
             return self._oracle_history(c)
+        return None
+
+    def _oracle_as_reactions_args(self, c):
+        """as_reactions(kf=..) / (kb=..) / with units: the same forward/backward STRUCTURE as the argument-less call (the
+        backward reaction undoes the forward one, inactive parts included), names as documented, and kf = kb * K * c0**(nb - nf)
+        (the rate arithmetic itself is C11's subject; here exact Fractions / plain unit products)"""
+        from chempy.units import default_units as u
+        rx = c['rxn']
+        eq = mk_rxn(rx)
+        eq.param = Fraction(rx[4])
+        K, k, mode = Fraction(rx[4]), Fraction(c['k']), c['mode']
+        effect = any(s_net(rx, kk) != 0 for kk in s_keys(rx))
+        nb, nf = sum(v for _, v in rx[1]), sum(v for _, v in rx[0])
+        kfu = float(k) * u.molar ** (1 - nf) / u.second          # a dimensionally consistent forward rate constant
+        try:
+            if mode == 'kf':
+                f, b = eq.as_reactions(kf=k, new_name=c['new_name'])
+            elif mode == 'kb':
+                f, b = eq.as_reactions(kb=k, new_name=c['new_name'])
+            elif mode == 'both':
+                f, b = eq.as_reactions(kf=k, kb=k)
+            elif mode == 'kf_units':
+                f, b = eq.as_reactions(kf=kfu, units=u, new_name=c['new_name'])
+            else:
+                f, b = eq.as_reactions(kf=kfu)
+        except ValueError as e:
+            if mode == 'both':
+                return None if str(e).startswith('Exactly one rate') else 'as_reactions(kf, kb): %s' % e
+            if mode == 'kf_units_missing':
+                return None if str(e).startswith('units missing') else 'as_reactions(kf with units, units=None): %s' % e
+            return None if not effect else 'as_reactions(%s) raised %s' % (mode, e)
+        if mode in ('both', 'kf_units_missing'):
+            return 'as_reactions accepted %s' % mode
+        if not effect:
+            return 'as_reactions built reactions for an equilibrium without net effect'
+        sf, sb = show_rxn_struct(f), show_rxn_struct(b)
+        if sf != [rx[0], rx[1], rx[2], rx[3]] or sb != [rx[1], rx[0], rx[3], rx[2]]:
+            return 'as_reactions(%s): forward %s / backward %s are not the equilibrium and its reverse (active and inactive parts swapped)' % (mode, sf, sb)
+        names = (f.name, b.name)
+        want_names = (rx[5], c['new_name']) if mode == 'kb' else (c['new_name'], rx[5])
+        if names != want_names:
+            return 'as_reactions(%s): names %s, expected %s' % (mode, names, want_names)
+        near = lambda x, y: abs(float(x) - float(y)) <= 1e-12 * abs(float(y))     # `1 ** (nb - nf)` is a float for nb < nf
+        if mode == 'kf' and not (near(f.param, k) and near(b.param, k / K)):
+            return 'as_reactions(kf=%s): parameters %s, expected (kf, kf/K)' % (k, (f.param, b.param))
+        if mode == 'kb' and not (near(f.param, k * K) and near(b.param, k)):
+            return 'as_reactions(kb=%s): parameters %s, expected (kb*K, kb)' % (k, (f.param, b.param))
+        if mode == 'kf_units':
+            want = kfu / (float(K) * (1 * u.molar) ** (nb - nf))
+            from chempy.units import to_unitless
+            ratio = to_unitless(b.param / want)
+            if abs(float(ratio) - 1) > 1e-12:
+                return 'as_reactions(kf, units): kb = %s, expected %s' % (b.param, want)
+        return None
+
+    def _oracle_array_units(self, c):
+        """as_per_substance_array(..., unit=u): values in substance order, converted to the unit (units themselves: C09/C10)"""
+        from chempy.units import default_units as u, to_unitless
+        rs, _ = mk_sys(c['sys'])
+        keys = [k for k, _ in c['sys']['subs']]
+        vals = [v * 1000 * u.mol / u.m ** 3 for v in c['vals']]                # = v molar
+        cont = OrderedDict(zip(keys, vals)) if c['as_dict'] else vals
+        if not keys and not c['as_dict']:
+            return None
+        arr = rs.as_per_substance_array(cont, unit=u.molar)
+        got = [float(x) for x in to_unitless(arr, u.molar)] if keys else []
+        if len(got) != len(keys) or any(abs(g - v) > 1e-9 * max(1, v) for g, v in zip(got, c['vals'])):
+            return 'as_per_substance_array(unit=molar) = %s, expected %s molar in substance order' % (got, c['vals'])
         return None
 
     def _oracle_as_reactions(self, c):
@@ -1281,15 +1542,27 @@ class C15(Property):
             dflt = False
         elif a[0] == 'substs':
             keys, dflt = list(OrderedDict.fromkeys(s[0] for s in a[1])), False
+        elif a[0] == 'dict':
+            keys, dflt = [k for k, _ in a[1]], True          # a plain dict is sorted by default
         else:
             keys, dflt = [k for k, _ in a[1]], False
         sort = dflt if c['sort'] is None else c['sort']
-        want = sorted(keys) if sort else keys
-        bad = failing_checks(rx, keys) & set(c['checks'])
         io = self.impl(c)
+        missing = bool(c.get('missing'))
+        if missing and not rx:
+            return None if io == 'TypeError' else 'missing_substances_from_keys without reactions: ' + io   # set.union(*[])
+        added = []
+        if missing:
+            added = sorted(set(k for r in rx for k in s_keys(r)) - set(keys))
+        if c['checks'] is not None and c.get('dont_check') is not None:
+            return None if io == 'ValueError:both' else 'both checks and dont_check given, constructor returned ' + io[:80]
+        requested = c['checks'] if c['checks'] is not None else [ch for ch in CHECKS if ch not in c['dont_check']]
+        bad = failing_checks(rx, keys + added) & set(requested)
         if io.startswith('ValueError:'):
             if not bad:
                 return 'constructor raised %s although the requested checks hold' % io
+            if c['checks'] is None:
+                return None if io == 'ValueError:some-check' else 'constructor raised ' + io
             if io.split(':')[1] not in bad:
                 return 'constructor raised %s, failing checks are %s' % (io, sorted(bad))
             first = next(ch for ch in c['checks'] if ch in bad)
@@ -1301,8 +1574,14 @@ class C15(Property):
         if bad:
             return 'constructor accepted a system failing ' + ','.join(sorted(bad))
         got = json.loads(io)
-        if [k for k, _ in got[1]] != want:
-            return 'substance order %s, expected %s' % ([k for k, _ in got[1]], want)
+        gk = [k for k, _ in got[1]]
+        if sort:
+            if gk != sorted(keys + added):
+                return 'substance order %s, expected %s' % (gk, sorted(keys + added))
+        elif gk[:len(keys)] != keys or sorted(gk[len(keys):]) != added:
+            return 'substances %s, expected %s followed by the missing keys %s' % (gk, keys, added)
+        if missing and any(k not in gk for r in rx for k in s_keys(r)):
+            return 'missing_substances_from_keys left a reaction key without substance'
         if got[0] != rx:
             return 'constructor changed the reactions'
         return None
@@ -1348,6 +1627,8 @@ class C15(Property):
                 return 'array -> dict -> array is not the identity: %s vs %s' % (arr, vals)
             return None
         if op == 'substance_index':
+            if isinstance(c['key'], int):
+                return None if rs.as_substance_index(c['key']) == c['key'] else 'as_substance_index(int) changed the index'
             try:
                 i = rs.as_substance_index(c['key'])
             except ValueError:
